@@ -80,7 +80,7 @@ def parse_run(line):
     return d
 
 
-REPO_FRAME = re.compile(r"#\d+ 0x[0-9a-f]+ in (\S+) (\S*?/(?:mtbl|libmy|src)/[^: ]+):(\d+)")
+REPO_FRAME = re.compile(r"#\d+ (?:0x[0-9a-f]+ in )?(\S+) (\S*?/(?:mtbl|libmy|src)/[^: ]+):(\d+)")
 
 
 def classify_crash(rc, err, out):
@@ -91,6 +91,10 @@ def classify_crash(rc, err, out):
         if v in ("DEADLOCK", "STEP-BUDGET"):
             return (v, v.lower(), m.group(2)[:600])
         return ("SCHED", v, m.group(2)[:600])
+    m = re.search(r"ThreadSanitizer: (SEGV|DEADLYSIGNAL)", err)
+    if m or ("ThreadSanitizer:DEADLYSIGNAL" in err):
+        f = REPO_FRAME.search(err)
+        return ("SANITIZER", "tsan-signal@" + (f.group(1) if f else "?"), first_lines(err, 12))
     m = re.search(r"ThreadSanitizer: (data race|[a-z -]+)", err)
     if m:
         kind = m.group(1).strip().replace(" ", "-")
